@@ -273,6 +273,15 @@ def env_hook(E, kind, **kw):
     if kind == "step.post":
         ck.expected_target_updates(E)
         return
+    if kind == "reset" and "C15" in ck.kinds and ck.cfg.fn == "train_td7" and E.st.ghost.get("args", {}).get("use_checkpoints") is True:
+        # C15 "none lost": the episode that just ended (this reset follows it) was handed to the assessment if its last
+        # step was taken once learning had started - whether it was terminated or truncated
+        env = kw["env"].fields
+        ls = E.st.ghost["args"]["learning_starts"]
+        ended_after_warmup = band(C.compare(">=", ck.executed(E), 1), C.compare(">=", ck.step_index(E), ls))
+        E.oblige("assess.every_episode_ending_after_warmup_is_assessed",
+                 implies(ended_after_warmup, C.compare("==", env.get("$assessed_ndone", -1), env["$ndone"])))
+        return
     if kind == "step.pre":
         env = kw["env"]
         if "C11" in ck.kinds:
@@ -700,6 +709,24 @@ def _td7_train_step(E, *a, **k):
     env = ck.env(E)
     E.log_write(env.name, "$trained")
     env.fields["$trained"] = C.binop("+", env.fields.get("$trained", 0), 1)
+    if {"C05", "C06"} & ck.kinds:
+        # wiring of train_td7: the online, fixed and target components handed to the training iteration are pairwise
+        # DISTINCT module objects - otherwise an update of one component silently changes another (aliasing), whatever
+        # the update routines themselves do
+        names_w, _ = _sig(E, ALG + "td7._train_step")
+        get = lambda n: (a[names_w.index(n)] if names_w.index(n) < len(a) else k.get(n))  # noqa: E731
+        pol, polt = get("policy"), get("policy_target")
+        parts = {"embedding": get("embedding"), "critic": get("critic"), "critic_target": get("critic_target")}
+        for nm, p_ in (("policy", pol), ("policy_target", polt)):
+            if isinstance(p_, Obj):
+                parts[f"{nm}.actor"] = p_.fields.get("actor")
+                parts[f"{nm}.embedding"] = p_.fields.get("embedding")
+        keys = sorted(parts)
+        shared_pairs = [(x, y) for i, x in enumerate(keys) for y in keys[i + 1:] if parts[x] is not None and parts[x] is parts[y]]
+        if shared_pairs:
+            E.st.fail("wiring.online_fixed_and_target_modules_are_distinct_objects", f"the same module object is used as {shared_pairs}")
+        else:
+            E.st.ok("wiring.online_fixed_and_target_modules_are_distinct_objects")
     if "C15" in ck.kinds:
         # the epoch handed to the training iteration counts released iterations
         names, cl = _sig(E, ALG + "td7._train_step")
@@ -718,6 +745,10 @@ def _assess_stub(E, checkpoint_state, steps_per_episode, episode_return, epoch, 
         E.oblige("assess.pre.steps_of_the_episode_that_just_ended", C.compare("==", steps_per_episode, env.fields["$eplen"]))
         E.oblige("assess.pre.return_of_the_episode_that_just_ended", C.compare("==", episode_return, env.fields["$epret"]))
         E.oblige("assess.pre.epoch_is_training_iteration_count", C.compare("==", epoch, C.binop("+", E.st.ghost["epoch0"], env.fields.get("$trained", 0))))
+    # ghost: ordinal of the episode assessed most recently (checked at the following reset: every episode that ends
+    # once learning has started - terminated OR truncated - is assessed, so none of its steps is lost)
+    E.log_write(env.name, "$assessed_ndone")
+    env.fields["$assessed_ndone"] = env.fields["$ndone"]
     upd = E.st.fresh_sym("update_checkpoint", BOOL)
     tr = E.st.fresh_sym("training_steps", INT)
     E.assume(tr >= 0)
@@ -808,6 +839,8 @@ reg(Cfg("pets", "train_pets", False, counter=None, ret=None, episodes=False, war
 
 def td7_tasks(kinds):
     out = []
+    if kinds == {"C05"}:
+        return [loop_task(TD7, kinds, "wiring", {})]
     if "C06" in kinds or "C15" in kinds:
         out.append(loop_task(TD7, kinds, "use_checkpoints", {"use_checkpoints": True}))
         out.append(loop_task(TD7, kinds, "use_checkpoints,episode-limit", {"use_checkpoints": True, "total_episodes": lambda E: E.int("total_episodes", 1)}))
